@@ -53,6 +53,9 @@ P = {
  "C18": ("Coq proof (crash points are part of the environment and of the programs: the invariants, the ledger and the progress theorems quantify over them) + fault injection at every crash point on the crate with hang detection and drop ledger",
          "Theorems c18_no_duplicate (every source kind, every crash point of the wrapped iterator's next() and of the closures, every schedule: no position is delivered twice), c18_others_return_known_kinds (wait-freedom: the other threads' calls return within their own step budget whatever the panicking thread did), c18_others_return_wrapped_iterator (fair termination of every call when the wrapped iterator panics at its k-th call, for every k, single, chunked and buffered pulls and loops) and c18_ledger_known_kinds (consumed vectors and arrays: every element moved out or destroyed exactly once, also when closures panic, at every point and at the end of life). On the crate: the generator injects a panic at every position of the wrapped iterator and of the closures, the scheduler detects calls that never return, the extracted ledger and index checkers judge the traces.",
          "Panics of an element's clone (cloned() adaptor) are exercised on the crate only through the closure crash points, not as a separate crash kind of the model (partial on that clause); the ledger of the owning wrapped iterator under panics is judged by the extracted checker on traces, not yet by a theorem."),
+ "C14": ("Coq proof of bounds entailment over declarations regenerated from the source by a translator (every unsafe impl Send/Sync, constructor, adaptor and ConcurrentIter impl; refutation with witness for the known finding) + compile probes (must-reject program with its must-compile twin) and run-time ownership probes built against the current tree",
+         "Theorems in props/C14.v (38): c14_every_unsafe_impl_is_covered / c14_every_constructor_is_covered / c14_every_concurrent_iter_impl_is_covered (the lists the translator extracts from src/**/*.rs equal the lists the proofs know, so a new unsafe impl or constructor breaks a proof), and for each of them `forall flags, declared flags = true -> required flags = true`, where declared_* is generated from the where-clauses and supertraits of the source on every run (tools/extract_bounds.py -> coq/gen/Bounds.v, fail closed) and required_* is derived from how the type is used across threads (Moves role => Send, Shares role => Sync). For ConIterOfIter the entailment is false on the pinned tree: c14_ConIterOfIter_{sync,send}_refuted, c14_impl_ConIterOfIter_refuted, c14_ctor_iter_refuted are proved with a witness (known finding F10). The borrow / lifetime clauses and the 'no two owners through safe calls' clause are decided by rustc and by execution: 52 probe pairs (each a minimal client that must be rejected with an expected error class and a twin that must compile) over every constructor, adaptor, chunk, buffered iterator, wrapper and the low-level AtomicIter surface, and 3 run-time ownership probes under a drop ledger.",
+         "No model of rustc's borrow checker is attempted: the lifetime clauses are translation validation on a finite probe family (partial), as the property's quantifier itself says. The required_* sets are hand-derived from the concurrency model and are part of the trusted base of this property."),
  "C16": ("Coq proof (lia over the machine-word arithmetic layer) + boundary-matrix correspondence in both profiles",
          "Theorems c16_pull_arithmetic / c16_delivered_interval: for ALL b, n < 2^64, all lengths and all range bounds below 2^64, every pull of a known-size kind computes exactly [b, b+min(n,len-b)) (or the end), never panics, in both build modes. The boundary matrix of the property runs on the crate in the debug and the release harness and is compared with the model and judged by chk_C16/C02/C03.",
          "Run-level statement (chk_C16 on whole traces) is checked on implementation and model traces, not yet proved as a theorem; the wrapped iterator's reserved-counter wrap is known finding F14."),
@@ -62,7 +65,6 @@ P = {
 }
 
 NOT_YET = {
- "C14": "bounds translator and compile probes in progress; not claimed in this snapshot",
  "C15": "allocation ledger in progress; not claimed in this snapshot",
  "C19": "multi-iterator model in progress; not claimed in this snapshot",
 }
